@@ -143,7 +143,8 @@ fn wrappers(ctx: &Ctx, t: &mut Tape<'_>, r: &mut Report) -> CheckResult {
     let f = &suite.streams[t.idx(suite.streams.len())];
     let bs = suite.info.bs;
     let key = gen_key(t, suite);
-    let iv = gen_iv(t, bs);
+    let c = (suite.keyed)(&key);
+    let iv = gen_stream_iv(t, f.kind(), bs, c.as_ref(), suite.info.has_dec);
     let len = gen_msg_len(t, bs, 6);
     let data = tape::gen_bytes(t, len);
     let cuts = gen_cuts(t, len, bs, 5);
@@ -172,7 +173,8 @@ fn cores(ctx: &Ctx, t: &mut Tape<'_>, r: &mut Report) -> CheckResult {
     let f = &suite.streams[t.idx(suite.streams.len())];
     let bs = suite.info.bs;
     let key = gen_key(t, suite);
-    let iv = gen_iv(t, bs);
+    let c = (suite.keyed)(&key);
+    let iv = gen_stream_iv(t, f.kind(), bs, c.as_ref(), suite.info.has_dec);
     let n = gen_nblocks(t, suite.info.par, 24);
     let data = tape::gen_bytes(t, n * bs);
     let pre = gen_prefill_kind(t);
